@@ -2,6 +2,7 @@ import PycModel.Properties.Tables
 import PycModel.Proofs.ClimbConcrete
 import PycModel.Proofs.OperandId
 import PycModel.Proofs.ParenExpr
+import PycModel.Proofs.FullExpr
 /-!
 # C02 — expression ASTs follow C precedence, associativity and operator binding
 
@@ -105,5 +106,23 @@ example : ∀ F, 90 ≤ F → ∃ s',
   obtain ⟨s', hr, hs', _⟩ := expressions_parse_as_the_grammar_says e 0 _ ("SEMI", ";") [] hwf (by decide) (by decide) hs F
     (Nat.le_trans (by decide) hF)
   exact ⟨s', hr, hs'⟩
+
+/-! ## the whole skeleton: comma, assignment, `?:`, binary levels, parentheses -/
+open PycModel.FullExpr in
+/-- **The expression skeleton parses exactly as the C grammar derives it** (6.5.5-6.5.17): for
+every expression `e` of `X ::= identifier | ( X ) | X binop X | X ? X : X | X assign-op X | X , X`,
+of any size and nesting, that is derivable at the comma level (`WFX 0 e`: binary operators by
+their ten levels and to the left, `?:` and assignment to the right, a full comma expression between
+`?` and `:`, comma loosest), from every parser state that sees its tokens followed by a token that
+cannot continue an expression, `_parse_expression` returns `e.val` (`BinaryOp` / `TernaryOp` /
+`Assignment` / `ExprList` nodes nested as derived, comma operands flattened into one `ExprList`,
+parentheses transparent) and consumes exactly the tokens of `e`; fuel `<= 13 * tokens`.
+Nothing is assumed about the parser: `peek`/`advance`/`reset` behave as a token stream by
+`Proofs/TokenView.lean`, every production on the way is executed symbolically. -/
+theorem expression_skeleton_parses_as_the_grammar_says (e : X) (hwf : WFX 0 e) (s : PState)
+    (stop : Tk) (rest : List Tk) (hstop : StopX stop.1) (hs : SeesT s (e.flat ++ stop :: rest))
+    (F : Nat) (hF : 13 * e.ntoks ≤ F) :
+    ∃ s', run F .expression s = .ok (e.val s.idx) s' ∧ SeesT s' (stop :: rest) ∧ s'.idx = s.idx + e.ntoks :=
+  parse_full e hwf s stop rest hstop hs F (Nat.le_trans (FullExpr.fuel_linear e) hF)
 
 end PycModel.C02
